@@ -303,7 +303,8 @@ class FuzzyWeightedUnion(SameArrayShapeMixin, Command):
 
         result = arrays[0] * weights[0]
         for weight, arr in zip(weights[1:], arrays[1:]):
-            result += arr * weight
+            # Not in place: adding to a plain ndarray in place would discard the missing cells of a later (masked) input
+            result = result + arr * weight
 
         result /= sum(weights)
 
